@@ -63,6 +63,25 @@ func genPair(t *rapid.T, cx *h.Ctx, disjointMembers bool, stats *gen.Stats) Pair
 	if rapid.IntRange(0, 19).Draw(t, "identical") == 0 {
 		b = a.Clone()
 		fam = "identical"
+		switch rapid.IntRange(0, 3).Draw(t, "identicalvariant") {
+		case 1:
+			// the same point set spelled as a collection that also holds an empty member of a higher dimension
+			if et := []string{gm.LineString, gm.Polygon, gm.MultiLineString, gm.MultiPolygon}[rapid.IntRange(0, 3).Draw(t, "emptytype")]; true {
+				mem := []gm.G{b, {T: et}}
+				if rapid.Bool().Draw(t, "emptyfirst") {
+					mem[0], mem[1] = mem[1], mem[0]
+				}
+				b = gm.G{T: gm.GeometryCollection, Mem: mem}
+				fam = "identical+empty-member"
+			}
+		case 2:
+			// the same point set traced out and (partly) back: every line runs to its end and returns along itself
+			b = retraceLines(b, rapid.SliceOfN(rapid.IntRange(0, 40), 1, 4).Draw(t, "retrace"))
+			fam = "identical+retraced"
+		}
+		if rapid.Bool().Draw(t, "identicalswap") {
+			a, b = b, a
+		}
 	}
 	// repeated consecutive vertices (valid; zero-length segments carry no points of their own): first, middle,
 	// last/closing vertex of drawn lines and rings
@@ -431,4 +450,35 @@ func TestC02(t *testing.T) {
 		Gen:         c02Gen,
 		Check:       c02Check,
 	})
+}
+
+// retraceLines appends to every non-empty LineString its own vertices in
+// reverse from the end back to vertex j (j from the seeds): the point set is
+// unchanged (a valid, non-simple LineString), the length grows; j = 0 closes it.
+func retraceLines(g gm.G, seeds []int) gm.G {
+	k := 0
+	var rec func(n gm.G) gm.G
+	rec = func(n gm.G) gm.G {
+		n = n.Norm()
+		d := gm.Dim(n.CT)
+		out := n
+		if n.T == gm.LineString && len(n.Co) >= 2*d {
+			cnt := len(n.Co) / d
+			j := seeds[k%len(seeds)] % (cnt - 1)
+			k++
+			co := append([]gm.F{}, n.Co...)
+			for i := cnt - 2; i >= j; i-- {
+				co = append(co, n.Co[i*d:(i+1)*d]...)
+			}
+			out.Co = co
+		}
+		if n.Mem != nil {
+			out.Mem = make([]gm.G, len(n.Mem))
+			for i, m := range n.Mem {
+				out.Mem[i] = rec(m)
+			}
+		}
+		return out
+	}
+	return rec(g)
 }
